@@ -2394,8 +2394,12 @@ impl<'a> Model<'a> {
                 }
 
                 //  We try to parse as number
-                if let Ok((v, number_format)) =
+                // A number that overflows (e.g. "1e999" parses to infinity) is not a number:
+                // like Excel we keep it as text.
+                if let Some((v, number_format)) =
                     parse_formatted_number(&value, &currencies, self.locale)
+                        .ok()
+                        .filter(|(v, _)| v.is_finite())
                 {
                     if let Some(num_fmt) = number_format {
                         // Should not apply the format in the following cases:
